@@ -163,9 +163,35 @@ def tpkt(rng):
     return TPKT(3, rbytes(rng, n))
 
 
+class ConformantRefused(Exception):
+    """a constructor refused field values that have an encoding in the protocol (the generators only build such values,
+    apart from the documented over-long ones, which they shorten when a constructor refuses them)"""
+
+    def __init__(self, cls_name, kwargs, exc):
+        Exception.__init__(self, '{}({}) raised {}: {}'.format(
+            cls_name, ', '.join('{}={!r}'.format(k, v if not isinstance(v, (bytes, bytearray)) or len(v) < 24
+                                                  else '<{} octets>'.format(len(v))) for k, v in sorted(kwargs.items())),
+            type(exc).__name__, str(exc)[:120]))
+        self.cls_name = cls_name
+
+
+COTP_MAX_USER_DATA = 248        # length indicator 6 + n <= 254 (255 is reserved, ISO 8073 13.2.1)
+
+
 def _cotp(rng, cls):
-    n = rlen(rng, 100) if rng.random() < 0.95 else rng.choice([249, 248])
-    return cls(src_ref=nat(rng, 16), user_data=rbytes(rng, n), dst_ref=nat(rng, 16), class_option=0)
+    n = rlen(rng, 100) if rng.random() < 0.95 else rng.choice([249, 248, 248, 247])
+    kwargs = dict(src_ref=nat(rng, 16), user_data=rbytes(rng, n), dst_ref=nat(rng, 16), class_option=0)
+    try:
+        return cls(**kwargs)
+    except Exception as exc:  # pylint: disable=broad-except
+        if n <= COTP_MAX_USER_DATA:
+            raise ConformantRefused(cls.__name__, kwargs, exc)
+    # 249 octets have no encoding: compose() must refuse them, and a constructor may; then the longest encodable value
+    kwargs['user_data'] = kwargs['user_data'][:COTP_MAX_USER_DATA]
+    try:
+        return cls(**kwargs)
+    except Exception as exc:  # pylint: disable=broad-except
+        raise ConformantRefused(cls.__name__, kwargs, exc)
 
 
 def cotp_request(rng):
